@@ -313,3 +313,22 @@ PROPS['C12'] = dict(
                  'timeout/oom/slow-unit artifacts are load noise, not violations',
                  'gridRingUnsafe(k<0) and gridDisksUnsafe(length<0) have no documented buffer size: outside the premise, not called'],
 )
+
+PROPS['C18'] = dict(
+    src='props/C18.cpp', variants=['fast', 'tsan'], shared_lib=['fast'], cxxflags='-DVERIF_DIR=/verif', level='exploration',
+    rule=('API programs (engine/apivm.hpp: ~60 API functions, valid / near-valid / out-of-domain arguments) from three sources — the committed C12 seed corpus with '
+          '0-3 byte mutations, single-function templates over eight valid registers, random bytes — executed by T in {2,3,4,8,16} threads released from a barrier '
+          '(two repetitions each) and once sequentially; non-trivial = at least one API call executed on at least two threads; distinct by (program bytes, T, order)'),
+    quick=dict(cases={'fast': 240_000, 'tsan': 40_000}, workers={'fast': 8, 'tsan': 8}, enum={'fast': 2, 'tsan': 2}),
+    thorough=dict(cases={'fast': 6_000_000, 'tsan': 1_000_000}, workers={'fast': 8, 'tsan': 8}, enum={'fast': 2, 'tsan': 2}),
+    strata=dict(quick=['the first 1500 programs of the C12 seed corpus, T=4, both variants'], thorough=['every program of the C12 seed corpus, T=4, both variants']),
+    level_text=('generated multi-threaded API programs with three oracles: (1) every thread observes byte-for-byte what the sequential execution observes (digest of all return '
+                'codes, scalar outputs and output buffers); (2) the writable segments (.data/.bss/GOT) of the library, linked as a shared object bound at load, are '
+                'byte-identical to their state before the first API call after every program — deterministic, independent of scheduling; (3) ThreadSanitizer build: '
+                'no data-race report while the threads run (threads run before the sequential reference, so first-call initialisation is concurrent). '
+                'We do not own the scheduler: interleavings are sampled, not enumerated; oracle (2) is what makes hidden static state visible without luck.'),
+    level_note=('trusted: ThreadSanitizer happens-before detection (history_size=4), dl_iterate_phdr segment discovery; a defect reachable only through arguments the '
+                'program generator does not produce stays invisible; state that is written and restored within one call is only visible to oracles (1) and (3)'),
+    technique='property-based testing (rapidcheck) of multi-threaded API programs: concurrent-vs-sequential differential, writable-segment snapshot invariant, ThreadSanitizer',
+    assumptions=['interleavings are sampled by the OS scheduler, not enumerated', 'work caps of the API VM bound the size of disks, fills and paths'],
+)
